@@ -38,6 +38,7 @@ func checkC35(c *core.Ctx) {
 	ruleFeatureTables(c)
 	ruleSyncObjects(c)
 	ruleFeatureIndependentWriters(c)
+	ruleSetupAppliesOnExactMatch(c)
 	// what a write returns (and logs) must not depend on MOVES_HISTORY: the post-commit volumes
 	// are copied before the MOVES_HISTORY-only unwinding loop (shared with C03); a per-ledger
 	// feature trigger fires for its own ledger only, so a ledger without the feature is not
